@@ -2,6 +2,7 @@ package main
 
 import (
 	"context"
+	"fmt"
 	"sort"
 	"sync"
 	"time"
@@ -138,6 +139,13 @@ func newMirror(sub kcache.Subscription, seed []metav1.Object) *mirror {
 			case kcache.EventTypeUpdate:
 				if !present {
 					m.bad = append(m.bad, "Update of an absent key")
+				} else {
+					var vo, vn int
+					fmt.Sscan(m.items[k].GetResourceVersion(), &vo)
+					fmt.Sscan(o.GetResourceVersion(), &vn)
+					if vn <= vo {
+						m.bad = append(m.bad, fmt.Sprintf("Update to a version that is not newer (%d -> %d)", vo, vn))
+					}
 				}
 				m.items[k] = o
 			case kcache.EventTypeDelete:
